@@ -8,7 +8,7 @@ from .constant import Constant
 from .macro import Macro
 from .register import Register, NamedQubit
 from .gate import GateStatement
-from .gatedef import GateDefinition, AbstractGate
+from .gatedef import GateDefinition, AbstractGate, BusyGateDefinition
 from .circuit import Circuit, normalize_native_gates
 from .parameter import Parameter
 from .block import BlockStatement, LoopStatement, UnscheduledBlockStatement
@@ -316,9 +316,13 @@ class Builder:
 
         if not self.is_anonymous_gate_allowed():
             raise JaqalError(f"No gate {name} defined")
-        gate_def = GateDefinition(
-            name, parameters=[Parameter(f"p{i}", None) for i in range(arg_count)]
-        )
+        if name in ("prepare_all", "measure_all") and arg_count == 0:
+            # Without a gate set these still act on every qubit
+            gate_def = BusyGateDefinition(name)
+        else:
+            gate_def = GateDefinition(
+                name, parameters=[Parameter(f"p{i}", None) for i in range(arg_count)]
+            )
         # So that a statement built ahead of its circuit can be told from
         # one that carries a real definition
         gate_def.made_up = True
@@ -547,7 +551,9 @@ class RebuildMacroInContextVisitor(Visitor):
                 raise JaqalError(f"No gate {gate.name} defined")
             return False, gate
         if isinstance(gate_def, Macro):
-            if gate_def == gate.gate_def:
+            # (identity: a macro built ahead of the circuit equals its
+            # relinked version, whose body has the circuit's definitions)
+            if gate_def is gate.gate_def:
                 return False, gate
 
             args = gate.parameters.values()
